@@ -143,6 +143,8 @@ func runRedact(c rcaseT) (out []byte, panicked bool) {
 	}
 	key := c.UserKey
 	switch c.User {
+	case "nil":
+		opts = append(opts, logging.WithReplaceAttr(nil))
 	case "top":
 		opts = append(opts, logging.WithReplaceAttr(func(groups []string, a slog.Attr) slog.Attr {
 			if len(groups) == 0 && a.Key == key {
@@ -578,6 +580,9 @@ func emitRedact(id string, c rcaseT, st *hx.Stats) string {
 		if c.User != "" {
 			st.Count("redact_user_replacer")
 		}
+		if c.User == "nil" {
+			st.Count("redact_replaceattr_nil")
+		}
 		if len(c.Chain) > 0 {
 			st.Count("redact_chain")
 		}
@@ -744,6 +749,9 @@ func genRedact(r *hx.Rand, allowLV bool) rcaseT {
 		c.User, c.UserKey = "any", "dropme"
 	case 2:
 		c.User, c.UserKey = "prefix", hx.Pick(r, []string{"app_", "x-"})
+	case 3:
+		// WithReplaceAttr(nil): an application forwarding an optional replacer that is not configured — same as none
+		c.User = "nil"
 	}
 	meta := func(k string) *attrT {
 		if !r.Chance(1, 4) {
